@@ -173,6 +173,8 @@ type World struct {
 	spinStop  chan struct{} // events family: readers spinning on the view
 	spinWG    sync.WaitGroup
 	spinPause int32
+	loadCancelled bool // restart … ctx=cancelled
+	sigOverride *int // forge: the `sig` flag to declare instead of the measured one (a malleated signature verifies, but nobody signed it)
 	lastStore iface.Store // address family: the store of the last successful createdb
 	acSimple  bool     // scenario flag ac=simple: the `simple` access controller instead of the default `ipfs` one
 	acWrite   []string // its write list
